@@ -7,6 +7,8 @@ Generic object-graph walk:
   functions/classes by qualified name.
 Dropped: Event.random_weight / message / status (never read by the library
 except for ordering inside a tie group, which the explorer owns, and printing).
+Dropped too: Environment._trace / _event_trace / _event_index (write-only trace
+bookkeeping; the exported trace is checked by the E2 replays of C15).
 Normalised: order inside tie groups of Environment._events and the order of
 Environment._paused_events (sorted by a key made of primitives only).
 Fields named in an object's class attribute `_canon_skip` are skipped (used by
@@ -213,6 +215,8 @@ class _Walker:
                     self.walk(e)
             elif k == 'step':
                 continue  # E2 instance override
+            elif k in ('_trace', '_event_trace', '_event_index'):
+                continue  # trace bookkeeping: write-only for the simulation (checked separately, C15)
             else:
                 out.append('.' + k)
                 self.walk(d[k])
